@@ -15,6 +15,10 @@ from vlib import bvsym as B
 TYPES = ["BYTE", "WORD", "DWORD", "LWORD", "ENGUNIT"]
 
 
+def _probe_patterns(n):
+    return [[0] * n, [1] * n, [0] * (n - 1) + [1], [1] + [0] * (n - 1), [i % 2 for i in range(n)], [(i + 1) % 2 for i in range(n)]]
+
+
 def _encode_ob(Tname):
     def run(replay=None):
         T = getattr(dt, Tname)
@@ -27,15 +31,26 @@ def _encode_ob(Tname):
                 return {"reproduced": enc != want}
             except Exception:
                 return {"reproduced": True}
+        # translator validation: the host-codec stub below assumes an UNSIGNED little-endian host of T.size bytes;
+        # push boundary patterns through the real function first (a signed or wrong-width host fails here)
+        for pat in _probe_patterns(n):
+            rp = run(replay={"bits": pat})
+            if rp["reproduced"]:
+                return {"status": "refuted", "cex": {"bits": pat}, "reproduced": True, "queries": 0,
+                        "detail": f"{Tname}.encode of boundary pattern {pat} is not the LSB-first image (host type {T.host_type.__name__})"}
         bits = [z3.Bool(f"b{i}") for i in range(n)]
         I = B.BVInterp()
 
         def host_encode(interp, guard, out, env, v):
+            # host codec contract from the REFERENCE table via the host type's CIP code: width and signedness
+            from vlib.ref.codec import CIP_TYPES
+            hn, hk = CIP_TYPES.get(T.host_type.code, (T.size, "u"))
             vz = interp.zi(v)
-            oor = z3.UGE(vz, z3.BitVecVal(1 << n, B.W))
+            limit = (1 << (8 * hn - 1)) if hk == "s" else (1 << (8 * hn))
+            oor = z3.UGE(vz, z3.BitVecVal(limit, B.W))
             out.add(z3.And(guard, oor), "raise", DataError("range"))
             interp.pending.append(oor)
-            return [B.SInt(z3.Extract(8 * i + 7, 8 * i, vz)) for i in range(T.size)]
+            return [B.SInt(z3.Extract(8 * i + 7, 8 * i, vz)) for i in range(hn)]
 
         I.stubs[T.host_type._encode.__func__] = host_encode
         t0 = time.time()
@@ -87,6 +102,11 @@ def _decode_ob(Tname):
         t0 = time.time()
         q = 0
         solver_s = 0.0
+        for pat in _probe_patterns(n):
+            hv = sum(1 << i for i in range(n) if pat[i])
+            if run(replay={"host": hv})["reproduced"]:
+                return {"status": "refuted", "cex": {"host": hv}, "reproduced": True, "queries": 0,
+                        "detail": f"{Tname}.decode of host value {hv:#x} is not its LSB-first bit list (host type {T.host_type.__name__})"}
         for L in range(0, n + 1):
             v = z3.BitVec("v", B.W)
             I = B.BVInterp()
